@@ -4,6 +4,7 @@
 import PyModeS.Proofs.Enum
 import PyModeS.Proofs.Bits
 import PyModeS.Model.Adsb
+import PyModeS.Proofs.Fields.Frame
 namespace PyModeS.C13
 
 /-- Totality of the regenerated type-code look-ups: every position type code 5–18 and 20–22 has
@@ -80,5 +81,615 @@ theorem tc_tables_spec :
       (12, [(none, 7)]), (13, [(none, 6)]), (14, [(none, 5)]), (15, [(none, 4)]), (16, [(some 0, 2), (some 3, 3)]), (17, [(none, 1)]),
       (18, [(none, 0)]), (20, [(none, 11)]), (21, [(none, 10)]), (22, [(none, 0)])] := by
   decide
+
+end PyModeS.C13
+
+/-! ## Frame-level field theorems: bds61 (TC 28), bds62 (TC 29), adsb.py version / NIC / NAC / SIL -/
+
+namespace PyModeS.C13
+open Fields
+
+/-! ### TC 28 -/
+
+/-- `emergency_state`: ME bits 9-11 (subtype 2, the ACAS RA broadcast, is refused) -/
+theorem emergency_state_spec (bits : Bits) (h : bits.length = 112) (htc : tcB bits = some 28) :
+    emergencyState bits =
+      if bin2int (slice 37 40 bits) = 2 then .rte else .val (bin2int (slice 40 43 bits)) := by
+  unfold emergencyState
+  simp only [htc, ne_eq, not_true_eq_false, if_false]
+  rw [bin2intR_slice_drop h 32 5 8 (by omega) (by omega), bin2intR_slice_drop h 32 8 11 (by omega) (by omega)]
+  rfl
+
+theorem emergency_state_guard (bits : Bits) (htc : tcB bits ≠ some 28) : emergencyState bits = .rte := by
+  unfold emergencyState; simp [htc]
+
+theorem is_emergency_guard (bits : Bits) (htc : tcB bits ≠ some 28) : isEmergency bits = .rte := by
+  unfold isEmergency; simp [htc]
+
+/-- `is_emergency()` is true exactly when `emergency_state()` reports a state other than "none" (0)
+    in an emergency/priority-status message (subtype 1; subtype 0 means "no information"); both
+    functions refuse subtype 2 (ACAS RA broadcast) with RuntimeError. -/
+theorem is_emergency_iff (bits : Bits) (h : bits.length = 112) (htc : tcB bits = some 28) :
+    (bin2int (slice 37 40 bits) = 2 → emergencyState bits = .rte ∧ isEmergency bits = .rte) ∧
+    (bin2int (slice 37 40 bits) ≠ 2 → ∃ s, emergencyState bits = .val s ∧
+      isEmergency bits = .val (decide (bin2int (slice 37 40 bits) = 1 ∧ s ≠ 0))) := by
+  rw [emergency_state_spec bits h htc, is_emergency_spec bits h htc]
+  refine ⟨fun hst => by simp [hst], fun hst => ⟨bin2int (slice 40 43 bits), by simp [hst], by simp [hst]⟩⟩
+
+/-! ### TC 29 (target state and status) -/
+
+/-- every bds62 decoder raises RuntimeError unless TC = 29 -/
+theorem tc29_guards (bits : Bits) (htc : tcB bits ≠ some 29) :
+    selectedAltitude bits = .rte ∧ targetAltitude bits = .rte ∧ verticalMode bits = .rte ∧
+    horizontalMode bits = .rte ∧ selectedHeading bits = .rte ∧ targetAngle bits = .rte ∧
+    baroPressureSetting bits = .rte ∧ (∀ k, modeFlag k bits = .rte) ∧ tcasOperational bits = .rte ∧
+    tcasRa bits = .rte ∧ emergencyStatus bits = .rte := by
+  refine ⟨?_, ?_, ?_, ?_, ?_, ?_, ?_, fun k => ?_, ?_, ?_, ?_⟩ <;>
+  first
+  | (unfold selectedAltitude; rw [tc29_rte htc]; rfl)
+  | (unfold targetAltitude; rw [tc29_rte htc]; rfl)
+  | (unfold verticalMode; rw [tc29_rte htc]; rfl)
+  | (unfold horizontalMode; rw [tc29_rte htc]; rfl)
+  | (unfold selectedHeading; rw [tc29_rte htc]; rfl)
+  | (unfold targetAngle; rw [tc29_rte htc]; rfl)
+  | (unfold baroPressureSetting; rw [tc29_rte htc]; rfl)
+  | (unfold modeFlag; rw [tc29_rte htc]; rfl)
+  | (unfold tcasOperational; rw [tc29_rte htc]; rfl)
+  | (unfold tcasRa; rw [tc29_rte htc]; rfl)
+  | (unfold emergencyStatus; rw [tc29_rte htc]; rfl)
+
+/-- selected altitude (subtype 1): `(N − 1)·32 ft` of ME bits 10-20, `None`/"N/A" for N = 0,
+    source by ME bit 9 -/
+theorem selected_altitude_spec (bits : Bits) (h : bits.length = 112) (htc : tcB bits = some 29) :
+    selectedAltitude bits =
+      let st := bin2int (slice 37 39 bits)
+      let n := bin2int (slice 41 52 bits)
+      if st = 0 then .rte
+      else .val (if n = 0 then (none, "N/A")
+        else (some ((n - 1) * 32), if bits[40]'(by omega) then "FMS" else "MCP/FCU")) := by
+  unfold selectedAltitude
+  rw [tc29_val h htc]
+  simp only [Res.bind_val]
+  rw [bin2intR_slice_drop h 32 9 20 (by omega) (by omega), idxR_drop 32 8 (by omega)]
+  simp only [Nat.reduceAdd, Res.bind_val, Res.pure_eq]
+  split
+  · rfl
+  · split
+    · rfl
+    · cases bits[40]'(by omega) <;> rfl
+
+/-- target altitude (subtype 0): `−1000 + N·100 ft` of ME bits 16-25; availability/source by ME bits
+    8-9 (`None` for 0), reference FL/MSL by ME bit 10 -/
+theorem target_altitude_spec (bits : Bits) (h : bits.length = 112) (htc : tcB bits = some 29) :
+    targetAltitude bits =
+      let st := bin2int (slice 37 39 bits)
+      let avail := bin2int (slice 39 41 bits)
+      let n := bin2int (slice 47 57 bits)
+      if st = 1 then .rte
+      else .val (if avail = 0 then (none, "N/A", "")
+        else (some (-1000 + (n : Int) * 100),
+          if avail = 1 then "MCP/FCU" else if avail = 2 then "Holding mode" else "FMS/RNAV",
+          if bits[41]'(by omega) then "MSL" else "FL")) := by
+  unfold targetAltitude
+  rw [tc29_val h htc]
+  simp only [Res.bind_val]
+  rw [bin2intR_slice_drop h 32 7 9 (by omega) (by omega), bin2intR_slice_drop h 32 15 25 (by omega) (by omega),
+    idxR_drop 32 9 (by omega)]
+  simp only [Nat.reduceAdd, Res.bind_val, Res.pure_eq]
+  split
+  · rfl
+  · split
+    · rfl
+    · cases bits[41]'(by omega) <;> rfl
+
+/-- vertical mode (subtype 0): ME bits 14-15, `None` for 0 -/
+theorem vertical_mode_spec (bits : Bits) (h : bits.length = 112) (htc : tcB bits = some 29) :
+    verticalMode bits =
+      let st := bin2int (slice 37 39 bits)
+      let v := bin2int (slice 45 47 bits)
+      if st = 1 then .rte else .val (if v = 0 then none else some v) := by
+  unfold verticalMode
+  rw [tc29_val h htc]
+  simp only [Res.bind_val]
+  rw [bin2intR_slice_drop h 32 13 15 (by omega) (by omega)]
+  rfl
+
+/-- horizontal mode (subtype 0): ME bits 26-27, `None` for 0 -/
+theorem horizontal_mode_spec (bits : Bits) (h : bits.length = 112) (htc : tcB bits = some 29) :
+    horizontalMode bits =
+      let st := bin2int (slice 37 39 bits)
+      let v := bin2int (slice 57 59 bits)
+      if st = 1 then .rte else .val (if v = 0 then none else some v) := by
+  unfold horizontalMode
+  rw [tc29_val h htc]
+  simp only [Res.bind_val]
+  rw [bin2intR_slice_drop h 32 25 27 (by omega) (by omega)]
+  rfl
+
+/-- selected heading as a function of the sign bit and the 8-bit magnitude: `sign·180 + N·180/256` -/
+def headingOf (sign : Bool) (n : Nat) : Rat := (if sign then 180 else 0) + (n : Rat) * 180 / 256
+
+/-- selected heading (subtype 1): `None` when the status bit (ME bit 30) is 0, else
+    `sign·180 + N·180/256` degrees with the sign at ME bit 31 and N at ME bits 32-39 -/
+theorem selected_heading_spec (bits : Bits) (h : bits.length = 112) (htc : tcB bits = some 29) :
+    selectedHeading bits =
+      let st := bin2int (slice 37 39 bits)
+      if st = 0 then .rte
+      else .val (if bits[61]'(by omega) then
+        some (headingOf (bits[62]'(by omega)) (bin2int (slice 63 71 bits))) else none) := by
+  unfold selectedHeading
+  rw [tc29_val h htc]
+  simp only [Res.bind_val]
+  rw [bin2intR_slice_drop h 32 31 39 (by omega) (by omega), idxR_drop 32 29 (by omega), idxR_drop 32 30 (by omega)]
+  simp only [Nat.reduceAdd, Res.bind_val, Res.pure_eq, headingOf]
+  have e : ∀ v : Rat, v * (180 / 256) = v * 180 / 256 := by
+    intro v; rw [Rat.div_def, Rat.div_def, Rat.mul_assoc]
+  have e1 : (((b2n true : Nat) : Rat)) * 180 = 180 := by decide +kernel
+  have e0 : (((b2n false : Nat) : Rat)) * 180 = 0 := by decide +kernel
+  split
+  · rfl
+  · cases bits[61]'(by omega)
+    · rfl
+    · cases bits[62]'(by omega)
+      · simp only [if_true, e, e0]; rfl
+      · simp only [if_true, e, e1]; rfl
+
+/-- the selected heading covers the full circle: with the sign bit as the 180° bit it is the 9-bit
+    number `sign·256 + N` in units of 360/512°, hence in `[0, 360)`, and 180° and above is reachable -/
+theorem heading_full_range : (List.range 256).all (fun n =>
+    decide (headingOf false n = ((n : Nat) : Rat) * 360 / 512 ∧
+      headingOf true n = ((256 + n : Nat) : Rat) * 360 / 512 ∧
+      0 ≤ headingOf false n ∧ headingOf false n < 180 ∧ 180 ≤ headingOf true n ∧ headingOf true n < 360)) = true := by
+  decide +kernel
+
+/-- target heading / track angle (subtype 0): N degrees of ME bits 28-36, availability/source by ME
+    bits 26-27 (`None` for 0), heading/track by ME bit 37 -/
+theorem target_angle_spec (bits : Bits) (h : bits.length = 112) (htc : tcB bits = some 29) :
+    targetAngle bits =
+      let st := bin2int (slice 37 39 bits)
+      let avail := bin2int (slice 57 59 bits)
+      let n := bin2int (slice 59 68 bits)
+      if st = 1 then .rte
+      else .val (if avail = 0 then (none, "", "N/A")
+        else (some n, if bits[68]'(by omega) then "Heading" else "Track",
+          if avail = 1 then "MCP/FCU" else if avail = 2 then "Autopilot mode" else "FMS/RNAV")) := by
+  unfold targetAngle
+  rw [tc29_val h htc]
+  simp only [Res.bind_val]
+  rw [bin2intR_slice_drop h 32 25 27 (by omega) (by omega), bin2intR_slice_drop h 32 27 36 (by omega) (by omega),
+    idxR_drop 32 36 (by omega)]
+  simp only [Nat.reduceAdd, Res.bind_val, Res.pure_eq]
+  split
+  · rfl
+  · split <;> rfl
+
+/-- barometric pressure setting (subtype 1): `800 + (N − 1)·0.8 hPa` of ME bits 21-29, `None` for 0 -/
+theorem baro_pressure_setting_spec (bits : Bits) (h : bits.length = 112) (htc : tcB bits = some 29) :
+    baroPressureSetting bits =
+      let st := bin2int (slice 37 39 bits)
+      let n := bin2int (slice 52 61 bits)
+      if st = 0 then .rte
+      else .val (if n = 0 then none else some (800 + (((n : Int) - 1 : Int) : Rat) * 4 / 5)) := by
+  unfold baroPressureSetting
+  rw [tc29_val h htc]
+  simp only [Res.bind_val]
+  rw [bin2intR_slice_drop h 32 20 29 (by omega) (by omega)]
+  rfl
+
+/-- mode flags (subtype 1): `None` when the mode-status bit (ME bit 47) is 0, else ME bit `k + 1` -/
+theorem mode_flag_spec (k : Nat) (hk : k < 80) (bits : Bits) (h : bits.length = 112) (htc : tcB bits = some 29) :
+    modeFlag k bits =
+      let st := bin2int (slice 37 39 bits)
+      if st = 0 then .rte
+      else .val (if bits[78]'(by omega) then some (bits[32 + k]'(by omega)) else none) := by
+  unfold modeFlag
+  rw [tc29_val h htc]
+  simp only [Res.bind_val]
+  rw [idxR_drop 32 46 (by omega), idxR_drop 32 k (by omega)]
+  simp only [Nat.reduceAdd, Res.bind_val, Res.pure_eq]
+  split
+  · rfl
+  · cases bits[78]'(by omega) <;> rfl
+
+theorem autopilot_spec (bits : Bits) (h : bits.length = 112) (htc : tcB bits = some 29) :
+    autopilot bits = if bin2int (slice 37 39 bits) = 0 then .rte
+      else .val (if bits[78]'(by omega) then some (bits[79]'(by omega)) else none) :=
+  mode_flag_spec 47 (by omega) bits h htc
+
+theorem vnav_mode_spec (bits : Bits) (h : bits.length = 112) (htc : tcB bits = some 29) :
+    vnavMode bits = if bin2int (slice 37 39 bits) = 0 then .rte
+      else .val (if bits[78]'(by omega) then some (bits[80]'(by omega)) else none) :=
+  mode_flag_spec 48 (by omega) bits h htc
+
+theorem altitude_hold_mode_spec (bits : Bits) (h : bits.length = 112) (htc : tcB bits = some 29) :
+    altitudeHoldMode bits = if bin2int (slice 37 39 bits) = 0 then .rte
+      else .val (if bits[78]'(by omega) then some (bits[81]'(by omega)) else none) :=
+  mode_flag_spec 49 (by omega) bits h htc
+
+theorem approach_mode_spec (bits : Bits) (h : bits.length = 112) (htc : tcB bits = some 29) :
+    approachMode bits = if bin2int (slice 37 39 bits) = 0 then .rte
+      else .val (if bits[78]'(by omega) then some (bits[83]'(by omega)) else none) :=
+  mode_flag_spec 51 (by omega) bits h htc
+
+theorem lnav_mode_spec (bits : Bits) (h : bits.length = 112) (htc : tcB bits = some 29) :
+    lnavMode bits = if bin2int (slice 37 39 bits) = 0 then .rte
+      else .val (if bits[78]'(by omega) then some (bits[85]'(by omega)) else none) :=
+  mode_flag_spec 53 (by omega) bits h htc
+
+/-- TCAS/ACAS operational: subtype 0 carries "not operational" at ME bit 52 (inverted), subtype 1
+    "operational" at ME bit 53; never refused for TC 29 -/
+theorem tcas_operational_spec (bits : Bits) (h : bits.length = 112) (htc : tcB bits = some 29) :
+    tcasOperational bits =
+      .val (if bin2int (slice 37 39 bits) = 0 then !(bits[83]'(by omega)) else bits[84]'(by omega)) := by
+  unfold tcasOperational
+  rw [tc29_val h htc]
+  simp only [Res.bind_val]
+  rw [idxR_drop 32 51 (by omega), idxR_drop 32 52 (by omega)]
+  simp only [Nat.reduceAdd, Res.bind_val, Res.pure_eq]
+  split
+  · cases bits[83]'(by omega) <;> rfl
+  · rfl
+
+/-- TCAS/ACAS resolution advisory active (subtype 0): ME bit 53 -/
+theorem tcas_ra_spec (bits : Bits) (h : bits.length = 112) (htc : tcB bits = some 29) :
+    tcasRa bits = if bin2int (slice 37 39 bits) = 1 then .rte else .val (bits[84]'(by omega)) := by
+  unfold tcasRa
+  rw [tc29_val h htc]
+  simp only [Res.bind_val]
+  rw [idxR_drop 32 52 (by omega)]
+
+/-- emergency / priority status (subtype 0): ME bits 54-56 -/
+theorem emergency_status_spec (bits : Bits) (h : bits.length = 112) (htc : tcB bits = some 29) :
+    emergencyStatus bits =
+      if bin2int (slice 37 39 bits) = 1 then .rte else .val (bin2int (slice 85 88 bits)) := by
+  unfold emergencyStatus
+  rw [tc29_val h htc]
+  simp only [Res.bind_val]
+  rw [bin2intR_slice_drop h 32 53 56 (by omega) (by omega)]
+
+end PyModeS.C13
+
+/-! ## adsb.py: version, NIC supplements, NUC / NAC / SIL / NIC categories -/
+
+namespace PyModeS.C13
+open Fields
+
+/-- a category value with its two table columns: the row of `v` in the regenerated table `t`
+    (`uncertainty.py`), `(v, None, None)` when the table has no such row -/
+def catRow (t : List (Nat × List (Option Rat))) (v : Nat) : Nat × Option Rat × Option Rat :=
+  match lookup t v with
+  | some row => (v, col row 0, col row 1)
+  | none => (v, none, none)
+
+/-- ADS-B version (TC 31): ME bits 41-43 -/
+theorem version_spec (bits : Bits) (h : bits.length = 112) :
+    version bits = if tcB bits = some 31 then .val (bin2int (slice 72 75 bits)) else .rte :=
+  guardedField_spec h 31 72 75 (by omega) (by omega)
+
+/-- NIC supplement S (TC 31): ME bit 44 -/
+theorem nic_s_spec (bits : Bits) (h : bits.length = 112) :
+    nicS bits = if tcB bits = some 31 then .val (b2n (bits[75]'(by omega))) else .rte := by
+  unfold nicS
+  rw [idxR_eq (by omega)]
+  by_cases c : tcB bits = some 31 <;> simp [c]
+
+/-- NIC supplements A and C (TC 31): ME bit 44 and ME bit 20 -/
+theorem nic_a_c_spec (bits : Bits) (h : bits.length = 112) :
+    nicAC bits = if tcB bits = some 31 then .val (b2n (bits[75]'(by omega)), b2n (bits[51]'(by omega)))
+      else .rte := by
+  unfold nicAC
+  rw [idxR_eq (i := 75) (by omega), idxR_eq (i := 51) (by omega)]
+  by_cases c : tcB bits = some 31 <;> simp [c]
+
+/-- NIC supplement B (airborne position, TC 9-18): ME bit 8 -/
+theorem nic_b_spec (bits : Bits) (h : bits.length = 112) :
+    nicB bits = match tcB bits with
+      | some tc => if 9 ≤ tc ∧ tc ≤ 18 then .val (b2n (bits[39]'(by omega))) else .rte
+      | none => .rte := by
+  unfold nicB
+  rw [idxR_eq (i := 39) (by omega)]
+  cases tcB bits with
+  | none => rfl
+  | some tc =>
+    by_cases c : tc < 9 ∨ tc > 18
+    · have : ¬ (9 ≤ tc ∧ tc ≤ 18) := by omega
+      simp [c, this]
+    · have : 9 ≤ tc ∧ tc ≤ 18 := by omega
+      simp [c, this]
+
+/-- NUCv (TC 19, version 0): ME bits 11-13 with the HVE/VVE row of the table -/
+theorem nuc_v_spec (bits : Bits) (h : bits.length = 112) :
+    nucV bits = if tcB bits = some 19 then .val (catRow Tables.tblNUCv (bin2int (slice 42 45 bits))) else .rte := by
+  unfold nucV
+  rw [bin2intR_slice h 42 45 (by omega) (by omega)]
+  by_cases c : tcB bits = some 19
+  · simp only [c, ne_eq, not_true_eq_false, if_false, if_true, Res.bind_val, catRow]
+    cases lookup Tables.tblNUCv (bin2int (slice 42 45 bits)) <;> rfl
+  · simp [c]
+
+/-- NACv (TC 19, version 1-2): ME bits 11-13 with the HFOMr/VFOMr row of the table -/
+theorem nac_v_spec (bits : Bits) (h : bits.length = 112) :
+    nacV bits = if tcB bits = some 19 then .val (catRow Tables.tblNACv (bin2int (slice 42 45 bits))) else .rte := by
+  unfold nacV
+  rw [bin2intR_slice h 42 45 (by omega) (by omega)]
+  by_cases c : tcB bits = some 19
+  · simp only [c, ne_eq, not_true_eq_false, if_false, if_true, Res.bind_val, catRow]
+    cases lookup Tables.tblNACv (bin2int (slice 42 45 bits)) <;> rfl
+  · simp [c]
+
+/-- NACp: ME bits 40-43 of a TC 29 message, ME bits 45-48 of a TC 31 message, with the EPU/VEPU row -/
+theorem nac_p_spec (bits : Bits) (h : bits.length = 112) :
+    (tcB bits = some 29 → nacP bits = .val (catRow Tables.tblNACp (bin2int (slice 71 75 bits)))) ∧
+    (tcB bits = some 31 → nacP bits = .val (catRow Tables.tblNACp (bin2int (slice 76 80 bits)))) ∧
+    (tcB bits ≠ some 29 → tcB bits ≠ some 31 → nacP bits = .rte) := by
+  refine ⟨?_, ?_, ?_⟩
+  · intro c
+    unfold nacP
+    rw [bin2intR_slice h 71 75 (by omega) (by omega)]
+    simp only [c, Res.bind_val, catRow]
+    cases lookup Tables.tblNACp (bin2int (slice 71 75 bits)) <;> rfl
+  · intro c
+    unfold nacP
+    rw [bin2intR_slice h 76 80 (by omega) (by omega)]
+    simp only [c, Res.bind_val, catRow]
+    cases lookup Tables.tblNACp (bin2int (slice 76 80 bits)) <;> rfl
+  · intro c1 c2
+    unfold nacP
+    split
+    · next e => exact absurd e c1
+    · next e => exact absurd e c2
+    · rfl
+
+/-- the SIL probabilities of a 2-bit SIL value: the table row, `(None, None)` without a row -/
+def silRow (s : Nat) : Option Rat × Option Rat :=
+  match lookup Tables.tblSIL s with
+  | some row => (col row 0, col row 1)
+  | none => (none, none)
+
+/-- SIL: ME bits 45-46 (TC 29) or 51-52 (TC 31) with the table row; the probability base is "unknown"
+    unless the caller says version 2, then the SIL supplement bit (ME bit 8 / ME bit 55) -/
+theorem sil_spec (bits : Bits) (h : bits.length = 112) (ver : Option Nat) :
+    (tcB bits = some 29 → sil bits ver =
+      .val ((silRow (bin2int (slice 76 78 bits))).1, (silRow (bin2int (slice 76 78 bits))).2,
+        if ver = some 2 then (if bits[39]'(by omega) then "sample" else "hour") else "unknown")) ∧
+    (tcB bits = some 31 → sil bits ver =
+      .val ((silRow (bin2int (slice 82 84 bits))).1, (silRow (bin2int (slice 82 84 bits))).2,
+        if ver = some 2 then (if bits[86]'(by omega) then "sample" else "hour") else "unknown")) ∧
+    (tcB bits ≠ some 29 → tcB bits ≠ some 31 → sil bits ver = .rte) := by
+  refine ⟨?_, ?_, ?_⟩
+  · intro c
+    unfold sil
+    rw [bin2intR_slice h 76 78 (by omega) (by omega), idxR_eq (i := 39) (by omega)]
+    simp only [c, ne_eq, not_true_eq_false, false_and, if_false, if_true, Res.bind_val, silRow, Res.pure_eq]
+    generalize lookup Tables.tblSIL (bin2int (slice 76 78 bits)) = r
+    by_cases hv : ver = some 2 <;> cases r <;> cases bits[39]'(by omega) <;> simp [hv]
+  · intro c
+    unfold sil
+    rw [bin2intR_slice h 82 84 (by omega) (by omega), idxR_eq (i := 86) (by omega)]
+    have e1 : ¬ ((31 : Nat) = 29) := by omega
+    simp only [c, ne_eq, not_true_eq_false, and_false, e1, if_false, Res.bind_val, silRow, Res.pure_eq]
+    generalize lookup Tables.tblSIL (bin2int (slice 82 84 bits)) = r
+    by_cases hv : ver = some 2 <;> cases r <;> cases bits[86]'(by omega) <;> simp [hv]
+  · intro c1 c2
+    unfold sil
+    cases e : tcB bits with
+    | none => rfl
+    | some tc =>
+      have : tc ≠ 29 ∧ tc ≠ 31 := ⟨fun x => c1 (by rw [e, x]), fun x => c2 (by rw [e, x])⟩
+      simp [this]
+
+end PyModeS.C13
+
+/-! ## NUCp / NIC by type code (position messages, TC 5-18 and 20-22) -/
+
+namespace PyModeS.C13
+open Fields
+
+/-- DO-260B: NUCp announced by the type code of a position message -/
+def nucpOfTc (tc : Nat) : Nat :=
+  if tc ≤ 8 then 14 - tc else if tc ≤ 18 then 18 - tc else if tc = 20 then 9 else if tc = 21 then 8 else 0
+
+/-- DO-260B (version 1): NIC by type code and NIC supplement -/
+def nicV1OfTc (tc nics : Nat) : Nat :=
+  if tc = 5 ∨ tc = 9 ∨ tc = 20 then 11 else if tc = 6 ∨ tc = 10 ∨ tc = 21 then 10
+  else if tc = 7 then 9 else if tc = 11 then 8 + nics else if tc = 16 then 2 + nics
+  else if 12 ≤ tc ∧ tc ≤ 15 then 19 - tc else if tc = 17 then 1 else 0
+
+theorem nucp_by_tc : (List.range 32).all (fun tc =>
+    if (5 ≤ tc ∧ tc ≤ 18) ∨ (20 ≤ tc ∧ tc ≤ 22) then
+      decide (lookup Tables.tcNUCp tc = some (nucpOfTc tc)) else true) = true := by decide +kernel
+
+theorem nic_v1_by_tc : (List.range 32).all (fun tc => (List.range 2).all (fun nics =>
+    if (5 ≤ tc ∧ tc ≤ 18) ∨ (20 ≤ tc ∧ tc ≤ 22) then
+      match lookup Tables.tcNICv1 tc with
+      | some e => decide (nicOfEntry e nics = .val (nicV1OfTc tc nics))
+      | none => false
+    else true)) = true := by decide +kernel
+
+/-- the Rc/VPL (or Rc) row of a NIC value under a NIC supplement, `None` when either key is absent -/
+def nicRow (t : List (Nat × List (Nat × List (Option Rat)))) (nic nics : Nat) : Option (List (Option Rat)) :=
+  (lookup t nic).bind (fun d => lookup d nics)
+
+/-- `nuc_p`: NUCp from the type code (the DO-260B assignment), HPL and RCu from its table row, RCv
+    4 m / 15 m for TC 20 / 21 -/
+theorem nuc_p_spec (bits : Bits) (tc : Nat) (htc : tcB bits = some tc)
+    (hr : (5 ≤ tc ∧ tc ≤ 18) ∨ (20 ≤ tc ∧ tc ≤ 22)) :
+    lookup Tables.tcNUCp tc = some (nucpOfTc tc) ∧
+    nucP bits = .val (nucpOfTc tc, (catRow Tables.tblNUCp (nucpOfTc tc)).2.1,
+      (catRow Tables.tblNUCp (nucpOfTc tc)).2.2,
+      if tc = 20 then some 4 else if tc = 21 then some 15 else none) := by
+  have key : lookup Tables.tcNUCp tc = some (nucpOfTc tc) := by
+    have := all_range_imp nucp_by_tc tc (tcB_lt htc)
+    simpa [hr] using this
+  refine ⟨key, ?_⟩
+  unfold nucP
+  have hg : ¬ (tc < 5 ∨ tc = 19 ∨ tc > 22) := by omega
+  simp only [htc, hg, if_false, lookupR, key, Res.bind_val, catRow]
+  cases lookup Tables.tblNUCp (nucpOfTc tc) <;> rfl
+
+theorem nuc_p_guard (bits : Bits) (hg : ∀ tc, tcB bits = some tc → tc < 5 ∨ tc = 19 ∨ tc > 22) :
+    nucP bits = .rte := by
+  unfold nucP
+  cases htc : tcB bits with
+  | none => rfl
+  | some tc => simp [hg tc htc]
+
+/-- `nic_v1` for any supplement argument: the type-code entry exists; the NIC is the entry itself or
+    its member for the supplement (`KeyError` if it has none), Rc/VPL the row of (NIC, supplement) -/
+theorem nic_v1_spec (bits : Bits) (tc : Nat) (htc : tcB bits = some tc)
+    (hr : (5 ≤ tc ∧ tc ≤ 18) ∨ (20 ≤ tc ∧ tc ≤ 22)) (nics : Nat) :
+    ∃ e, lookup Tables.tcNICv1 tc = some e ∧
+      nicV1 bits nics = match nicOfEntry e nics with
+        | .val nic => .val (match nicRow Tables.tblNICv1 nic nics with
+            | some row => (nic, col row 0, col row 1)
+            | none => (nic, none, none))
+        | _ => .exc := by
+  have hs : (lookup Tables.tcNICv1 tc).isSome := by
+    have := all_range_imp tc_lookups_total tc (tcB_lt htc)
+    simp only [hr, if_true, Bool.and_eq_true] at this
+    exact this.1.2
+  obtain ⟨e, he⟩ := Option.isSome_iff_exists.mp hs
+  refine ⟨e, he, ?_⟩
+  unfold nicV1
+  have hg : ¬ (tc < 5 ∨ tc = 19 ∨ tc > 22) := by omega
+  simp only [htc, hg, if_false, lookupR, he, Res.bind_val, nicRow]
+  cases hn : nicOfEntry e nics with
+  | val nic =>
+    simp only [Res.bind_val]
+    cases lookup Tables.tblNICv1 nic with
+    | none => rfl
+    | some d =>
+      simp only [Option.bind_some]
+      cases lookup d nics <;> rfl
+  | rte =>
+    exfalso
+    unfold nicOfEntry at hn
+    split at hn
+    · cases hn
+    · split at hn <;> cases hn
+  | exc => rfl
+
+/-- with a 1-bit supplement `nic_v1` never raises and the NIC is the DO-260B value -/
+theorem nic_v1_value (bits : Bits) (tc : Nat) (htc : tcB bits = some tc)
+    (hr : (5 ≤ tc ∧ tc ≤ 18) ∨ (20 ≤ tc ∧ tc ≤ 22)) (nics : Nat) (hn : nics < 2) :
+    nicV1 bits nics = .val (match nicRow Tables.tblNICv1 (nicV1OfTc tc nics) nics with
+      | some row => (nicV1OfTc tc nics, col row 0, col row 1)
+      | none => (nicV1OfTc tc nics, none, none)) := by
+  obtain ⟨e, he, hv⟩ := nic_v1_spec bits tc htc hr nics
+  have := all_range_imp (all_range_imp nic_v1_by_tc tc (tcB_lt htc)) nics hn
+  simp only [hr, if_true, he, decide_eq_true_eq] at this
+  rw [hv, this]
+
+theorem nic_v1_guard (bits : Bits) (nics : Nat) (hg : ∀ tc, tcB bits = some tc → tc < 5 ∨ tc = 19 ∨ tc > 22) :
+    nicV1 bits nics = .rte := by
+  unfold nicV1
+  cases htc : tcB bits with
+  | none => rfl
+  | some tc => simp [hg tc htc]
+
+/-- `nic_v2` for any supplement arguments never raises on a position message: the type-code entry
+    exists, the supplement is 0 for TC 20-22 and `2·A + B/C` otherwise, and the result is (NIC, Rc) of
+    the (NIC, supplement) row — `(None, None)` whenever any of the look-ups inside the `try` fails -/
+theorem nic_v2_spec (bits : Bits) (tc : Nat) (htc : tcB bits = some tc)
+    (hr : (5 ≤ tc ∧ tc ≤ 18) ∨ (20 ≤ tc ∧ tc ≤ 22)) (nica nicbc : Nat) :
+    ∃ e, lookup Tables.tcNICv2 tc = some e ∧
+      nicV2 bits nica nicbc = .val (
+        let nics := if 20 ≤ tc ∧ tc ≤ 22 then 0 else nica * 2 + nicbc
+        match nicOfEntry e nics with
+        | .val nic => (nicRow Tables.tblNICv2 nic nics).map (fun row => (nic, col row 0))
+        | _ => none) := by
+  have hs : (lookup Tables.tcNICv2 tc).isSome := by
+    have := all_range_imp tc_lookups_total tc (tcB_lt htc)
+    simp only [hr, if_true, Bool.and_eq_true] at this
+    exact this.2
+  obtain ⟨e, he⟩ := Option.isSome_iff_exists.mp hs
+  refine ⟨e, he, ?_⟩
+  unfold nicV2
+  have hg : ¬ (tc < 5 ∨ tc = 19 ∨ tc > 22) := by omega
+  simp only [htc, hg, if_false, lookupR, he, Res.bind_val, nicRow]
+  generalize (if 20 ≤ tc ∧ tc ≤ 22 then 0 else nica * 2 + nicbc) = nics
+  cases nicOfEntry e nics with
+  | val nic =>
+    simp only
+    cases lookup Tables.tblNICv2 nic with
+    | none => rfl
+    | some d =>
+      simp only [Option.bind_some]
+      cases lookup d nics <;> rfl
+  | rte => rfl
+  | exc => rfl
+
+theorem nic_v2_never_raises (bits : Bits) (tc : Nat) (htc : tcB bits = some tc)
+    (hr : (5 ≤ tc ∧ tc ≤ 18) ∨ (20 ≤ tc ∧ tc ≤ 22)) (nica nicbc : Nat) :
+    ∃ r, nicV2 bits nica nicbc = .val r := by
+  obtain ⟨e, _, hv⟩ := nic_v2_spec bits tc htc hr nica nicbc
+  exact ⟨_, hv⟩
+
+theorem nic_v2_guard (bits : Bits) (nica nicbc : Nat)
+    (hg : ∀ tc, tcB bits = some tc → tc < 5 ∨ tc = 19 ∨ tc > 22) : nicV2 bits nica nicbc = .rte := by
+  unfold nicV2
+  cases htc : tcB bits with
+  | none => rfl
+  | some tc => simp [hg tc htc]
+
+end PyModeS.C13
+
+/-! ## Non-vacuity: the hypotheses of the theorems above are met by concrete frames -/
+
+namespace PyModeS.C13
+
+/-- TC 29 subtype 1 (tests/test_adsb.py: 16992 ft MCP/FCU, 1012.8 hPa, heading 66.8°, autopilot/VNAV/LNAV
+    on, altitude hold/approach off, TCAS operational); the subtype-0 decoders refuse it -/
+example :
+    let f := hex2bin "8DA05629EA21485CBF3F8CADAEEB"
+    f.length = 112 ∧ tcB f = some 29 ∧ bin2int (slice 37 39 f) = 1 ∧
+    selectedAltitude f = .val (some 16992, "MCP/FCU") ∧ baroPressureSetting f = .val (some ((5064 : Rat) / 5)) ∧
+    selectedHeading f = .val (some ((4275 : Rat) / 64)) ∧ autopilot f = .val (some true) ∧
+    vnavMode f = .val (some true) ∧ altitudeHoldMode f = .val (some false) ∧ approachMode f = .val (some false) ∧
+    lnavMode f = .val (some true) ∧ tcasOperational f = .val true ∧ targetAltitude f = .rte ∧
+    verticalMode f = .rte ∧ horizontalMode f = .rte ∧ targetAngle f = .rte ∧ tcasRa f = .rte ∧
+    emergencyStatus f = .rte ∧ nacP f = .val (9, some 30, some 45) ∧
+    sil f (some 2) = .val (some ((1 : Rat) / 10000000), some ((1 : Rat) / 5000000), "hour") := by
+  decide +kernel
+
+/-- a TC 29 subtype-0 frame (synthetic): the subtype-1 decoders refuse it, the others decode -/
+example :
+    let f := hex2bin "8DA05629E9A4C85C3F0A28000000"
+    f.length = 112 ∧ tcB f = some 29 ∧ bin2int (slice 37 39 f) = 0 ∧
+    selectedAltitude f = .rte ∧ selectedHeading f = .rte ∧ baroPressureSetting f = .rte ∧ autopilot f = .rte ∧
+    (targetAltitude f).isVal ∧ (verticalMode f).isVal ∧ (horizontalMode f).isVal ∧ (targetAngle f).isVal ∧
+    (tcasRa f).isVal ∧ (emergencyStatus f).isVal ∧ (tcasOperational f).isVal := by
+  decide +kernel
+
+/-- TC 28 (tests/test_adsb.py: no emergency) -/
+example :
+    let f := hex2bin "8DA2C1B6E112B600000000760759"
+    f.length = 112 ∧ tcB f = some 28 ∧ emergencyState f = .val 0 ∧ isEmergency f = .val false := by
+  decide +kernel
+
+/-- TC 31 (synthetic operational-status frame, version 2) -/
+example :
+    let f := hex2bin "8D4840D6F8220040024AB8000000"
+    f.length = 112 ∧ tcB f = some 31 ∧ version f = .val 2 ∧ nicS f = .val 0 ∧ nicAC f = .val (0, 0) ∧
+    nacP f = .val (10, some 10, some 15) ∧
+    sil f (some 2) = .val (some ((1 : Rat) / 10000000), some ((1 : Rat) / 5000000), "hour") ∧
+    sil f none = .val (some ((1 : Rat) / 10000000), some ((1 : Rat) / 5000000), "unknown") := by
+  decide +kernel
+
+/-- TC 19 (tests/test_adsb.py) -/
+example :
+    let f := hex2bin "8D485020994409940838175B284F"
+    f.length = 112 ∧ tcB f = some 19 ∧ nucV f = .val (0, none, none) ∧ nacV f = .val (0, none, none) := by
+  decide +kernel
+
+/-- TC 11 airborne position (tests/test_adsb.py): NUCp 7; NIC 8 or 9 by supplement; the v2 look-up
+    returns `(None, None)` for a supplement combination without a table row -/
+example :
+    let f := hex2bin "8D40621D58C382D690C8AC2863A7"
+    f.length = 112 ∧ tcB f = some 11 ∧ nicB f = .val 0 ∧ nucP f = .val (7, some 185, some 93, none) ∧
+    nicV1 f 0 = .val (8, some 185, none) ∧ nicV1 f 1 = .val (9, some 75, some 112) ∧
+    nicV2 f 0 0 = .val (some (8, some 185)) ∧ nicV2 f 1 1 = .val (some (9, some 75)) ∧
+    nicV2 f 0 1 = .val none := by
+  decide +kernel
 
 end PyModeS.C13
